@@ -607,6 +607,8 @@ func runC18(c *Ctx, r *Report) {
 	noCidReencoding(c, r, "R-C18.13")
 	r.Doc("R-C18.14", "DecryptLinks replaces the clear lists of a decoded block only by links it has just opened")
 	linksOverwrittenOnlyWhenOpened(c, r, "R-C18.14")
+	r.Doc("R-C18.16", "every view Normalize returns — the pre-signed one included — carries the fields a codec's PreSign writes into (the sealed links live in the additional data: left out of the signed view they can be swapped in the block)")
+	preSignAdditionsAreInTheView(c, r, "R-C18.16")
 	r.Doc("R-C18.12", "a fixed-size key or nonce buffer (an array, or a slice made with a constant length) is filled completely: the loop that copies into it covers every index (a byte left at zero makes keys that differ only there interchangeable and takes entropy out of the nonce)")
 	{
 		nfill := 0
